@@ -2,6 +2,7 @@ package main
 
 import (
 	"fmt"
+	"go/types"
 	"sort"
 	"strings"
 
@@ -12,14 +13,16 @@ func init() {
 	Register(&Property{
 		ID: "C19",
 		Decides: "(R19.1) the center's list of temp databases and its removed list are written only with the center lock held exclusively (or in helpers called only with it held, or the constructor) and read under the lock or through the locked snapshot helpers; " +
-			"(R19.2) every leveldb key builder a reader uses is used by the block writer (and vice versa) — a reader cannot look where nothing is written; (R19.3) every read of the center falls back to the same read of the permanent database with the caller's own argument — for the by-block-height suffrage proof the requested height, lowered to lowest-temp-minus-one only when it lies above it; " +
-			"(R19.4) a temp database is published to readers only after its own merge marker write succeeded and only for the height following the newest one; it leaves the list only after the permanent merge succeeded; (R19.5) Center.state consults a temp only if it is newer than the newest holder of the key found so far, replaces the remembered height only by the height of a newer temp that holds the key, and never resets it (closed or empty temps leave it unchanged).",
+			"(R19.2) every leveldb key builder a reader uses is used by the block writer (and vice versa) — a reader cannot look where nothing is written; every key builder carries each of its parameters in full under its own prefix constant; (R19.3) every read of the center falls back to the same read of the permanent database with the caller's own argument — for the by-block-height suffrage proof the requested height, lowered to lowest-temp-minus-one only when it lies above it; " +
+			"(R19.4) a temp database is published to readers only after its own merge marker write succeeded and only for the height following the newest one; it leaves the list only after the permanent merge succeeded; (R19.5) Center.state consults a temp only if it is newer than the newest holder of the key found so far, replaces the remembered height only by the height of a newer temp that holds the key, and never resets it (closed or empty temps leave it unchanged).; (R19.j) jobs handed to a worker read only captured variables that the submitter does not assign again (no job works on a later batch/slot than the one it was created for)",
 		NotDecided: "agreement with a model over all histories of writes/merges/removals (needs execution); monotonicity of concurrent reads during merges beyond the snapshot/lock discipline.",
 		Run:        runC19,
 	})
 }
 
 func runC19(c *Ctx) {
+	c.Rule("R19.j", "AsyncCapture")
+	c.AsyncCaptures(c.Need("isaac/database.(*Center).dig"), "*.NewJob", 1)
 	// R19.1 --------------------------------------------------------------------------------------
 	c.Rule("R19.1", "LockHeld")
 	lockRequired := map[string]bool{"isaac/database.(*Center).removeTemp": true}
@@ -115,6 +118,7 @@ func runC19(c *Ctx) {
 	for _, k := range wk {
 		c.Report(nil, "written key builder "+strings.TrimPrefix(k, "isaac/database.")+" has a reader", 0, r[k], "readers: TempLeveldb / LeveldbPermanent / baseLeveldb")
 	}
+	keyBuilderRules(c)
 	// R19.3 delegation ---------------------------------------------------------------------------
 	c.Rule("R19.3", "SiblingAgreement")
 	for _, m := range []struct {
@@ -167,6 +171,7 @@ func runC19(c *Ctx) {
 		c.MP(fn, "temp published only for the next height", pub, 2, GCmp("w.TempDatabase()#0.Height()", "==", "(φ(*) + 1)"), GCmp("φ(*)", "<=", "base.NilHeight"))
 		c.Held(fn, nil, "temp published under the center lock", pub, 2, "&db.l", LW)
 	}
+	mergedMarkerRules(c)
 	if fn := c.Need("isaac/database.mergeToPermanent"); fn != nil {
 		rm := c.CallsD(fn, "call(remove)(*)")
 		c.MP(fn, "temp leaves the list only after the permanent merge succeeded", rm, 1, GOk("perm.MergeTempDatabase(ctx, *)"))
@@ -252,5 +257,97 @@ func runC19(c *Ctx) {
 		if mid := c.Need("isaac/database.(*Center).state$1"); mid != nil {
 			c.MP(mid, "the dig goes on only if recording did not fail", c.ReturnsD(mid, 0, "true"), 1, GNil("*.Set(func:isaac/database.(*Center).state$1$1)#1"))
 		}
+	}
+}
+
+// keyBuilderRules (shared by C19, C20, C22, C23, C24 under the caller's current rule): every
+// leveldb key builder of isaac/database puts each of its parameters into the key *in full* — as
+// P.Bytes(), as P itself (string / byte slice), as P.Hash().Bytes(), through another key builder
+// called with P, or, for a bool flag, by branching on it — under a prefix constant, and no two
+// builders share a prefix constant except the tabled prefix/key pairs.
+func keyBuilderRules(c *Ctx) {
+	var fns []*ssa.Function
+	for _, f := range c.FuncsWithPrefix("isaac/database.leveldb") {
+		if f.Parent() != nil || f.Signature.Results().Len() != 1 || f.Signature.Results().At(0).Type().String() != "[]byte" {
+			continue
+		}
+		fns = append(fns, f)
+	}
+	sort.Slice(fns, func(i, j int) bool { return c.FuncKey(fns[i]) < c.FuncKey(fns[j]) })
+	if !c.Floor(nil, "leveldb key builders", len(fns), 18) {
+		return
+	}
+	sharedOK := map[string]bool{ // builders that deliberately build a prefix of another builder's keys
+		"isaac/database.leveldbNewOperationOrderedKeyPrefix": true,
+	}
+	prefixOf := map[string][]string{}
+	for _, fn := range fns {
+		c.touch(fn)
+		rets := Returns(fn)
+		if len(rets) == 0 {
+			continue
+		}
+		for _, prm := range fn.Params {
+			name := c.D(prm)
+			full := []string{name + ".Bytes()", name + ".Hash().Bytes()", "isaacdatabase.leveldb*(" + name + ")", "isaacdatabase.leveldb*(" + name + ", *)"}
+			ok := true
+			for _, r := range rets {
+				v := RetVal(r, 0)
+				dep := false
+				for _, pat := range full {
+					if c.DependsOnD(v, pat) {
+						dep = true
+					}
+				}
+				switch t := prm.Type().Underlying().(type) {
+				case *types.Basic:
+					if t.Kind() == types.Bool {
+						dep = dep || len(c.condsMatching(fn, name)) > 0
+					}
+					if t.Info()&types.IsString != 0 {
+						dep = dep || c.DependsOn(v, func(x ssa.Value) bool { return x == ssa.Value(prm) })
+					}
+				case *types.Slice:
+					dep = dep || c.DependsOn(v, func(x ssa.Value) bool { return x == ssa.Value(prm) })
+				}
+				if !dep {
+					ok = false
+				}
+			}
+			c.Report(fn, "key carries parameter "+name+" in full", fn.Pos(), ok, "accepted: "+strings.Join(full[:2], ", ")+", the value itself (string/bytes), a flag branch, another key builder")
+		}
+		// prefix constants
+		var pfx []string
+		seen := map[string]bool{}
+		for _, r := range rets {
+			for x := range c.BackSlice(RetVal(r, 0)) {
+				if g, ok := x.(*ssa.Global); ok && strings.Contains(g.Name(), "leveldbKey") && !seen[g.Name()] {
+					seen[g.Name()] = true
+					pfx = append(pfx, g.Name())
+				}
+				if u, ok := x.(*ssa.UnOp); ok {
+					if g, ok := u.X.(*ssa.Global); ok && strings.Contains(g.Name(), "leveldbKey") && !seen[g.Name()] {
+						seen[g.Name()] = true
+						pfx = append(pfx, g.Name())
+					}
+				}
+			}
+		}
+		sort.Strings(pfx)
+		callsBuilder := len(c.CallsD(fn, "isaacdatabase.leveldb*(*)")) > 0
+		c.Report(fn, "key lives under exactly one prefix constant (or extends another builder's key)", fn.Pos(), len(pfx) == 1 || (len(pfx) == 0 && callsBuilder), strings.Join(pfx, ", "))
+		if !sharedOK[c.FuncKey(fn)] {
+			for _, g := range pfx {
+				prefixOf[g] = append(prefixOf[g], c.FuncKey(fn))
+			}
+		}
+	}
+	var gs []string
+	for g := range prefixOf {
+		gs = append(gs, g)
+	}
+	sort.Strings(gs)
+	for _, g := range gs {
+		c.Report(nil, "prefix constant "+g+" belongs to one key builder", 0, len(prefixOf[g]) == 1, strings.Join(prefixOf[g], ", "))
 	}
 }
